@@ -68,11 +68,16 @@ func (f *frame) ReadFrom(r io.Reader) (int64, error) {
 	if err != nil {
 		return n, err
 	}
-	if cap(f.Data) < int(f.header.DataLen) {
-		f.Data = make([]byte, int(f.header.DataLen))
-	} else {
-		f.Data = f.Data[:f.header.DataLen]
+	if f.header.DataLen == 0 {
+		f.Data = f.Data[:0]
+		return n, nil
 	}
-	m, err := io.ReadFull(r, f.Data)
-	return n + int64(m), err
+	// Don't trust the announced length with an up-front allocation; grow the buffer as data arrives.
+	var buf bytes.Buffer
+	m, err := io.CopyN(&buf, r, int64(f.header.DataLen))
+	f.Data = buf.Bytes()
+	if err == io.EOF {
+		err = io.ErrUnexpectedEOF
+	}
+	return n + m, err
 }
